@@ -28,7 +28,7 @@ var ev = kit.Ev("C05")
 func init() {
 	ev.Rule("a history on one real server.Server (ServeConn over in-memory connections) with 4 authenticated commands carrying per-command security policies and 0-2 permission levels, 2 raw commands and unknown ones: " +
 		"run(first command, client kind: CLAIMTOBE / TOKEN / unauthenticated / scripted client omitting its key / requester that only knows a session id), follow-on commands on a kept-alive connection, " +
-		"reconnect-and-resume with a different command, bare raw commands, authenticated requests for raw commands, policy changes, authorizer table changes, authorizer on/off, server restart; " +
+		"reconnect-and-resume with a different command, bare raw commands, authenticated requests for raw commands, re-registration of a command (raw <-> authenticated, other levels), policy changes, authorizer table changes, authorizer on/off, server restart; " +
 		"oracle: reference admission model evaluated on ground truth (authentication observed on the wire, encryption read off the handler's reply frame): every handler invocation must be one the model allows; " +
 		"a refused or unknown command closes the connection without running a handler; an honest client with a satisfied policy and an authorized identity does get its handler (non-vacuity); " +
 		"non-trivial = a follow-on or resumed command whose policy differs from the first command's, or a policy/authorizer change between connections; distinct by history")
@@ -72,6 +72,10 @@ type world struct {
 	invs       []invocation
 	connSeq    int
 	curConn    int
+	// registration table as the last Handle/HandleRaw call per command left it
+	raw   map[int]bool
+	perms map[int][]string
+	h     server.HandlerFunc
 }
 
 var tokenEnv = kit.NewTokenEnv()
@@ -129,11 +133,14 @@ func newWorld() *world {
 		}
 		return nil
 	}
+	w.h, w.raw, w.perms = h, map[int]bool{}, map[int][]string{}
 	for _, c := range authCmds {
 		w.srv.Handle(c, h, perms[c]...)
+		w.raw[c], w.perms[c] = false, perms[c]
 	}
 	w.srv.HandleRaw(cmdRaw1, h)
 	w.srv.HandleRaw(cmdRaw2, h)
+	w.raw[cmdRaw1], w.raw[cmdRaw2] = true, true
 	return w
 }
 
@@ -195,11 +202,33 @@ type stats struct {
 
 // effective returns the policy that applies to cmd (caller holds w.mu).
 func (w *world) effective(cmd int) (pol, bool) {
-	p, ok := w.policy[cmd]
-	if ok && w.inherit[cmd] {
-		return w.defPol, true
+	raw, registered := w.raw[cmd]
+	if !registered || raw {
+		return pol{}, false
 	}
-	return p, ok
+	p, ok := w.policy[cmd]
+	if !ok || w.inherit[cmd] {
+		return w.defPol, true // no per-command policy: the server's default applies
+	}
+	return p, true
+}
+
+// register re-registers cmd the way a reconfiguring daemon would: the LAST registration is what counts.
+func (w *world) register(cmd int, raw bool, pm []string) {
+	w.mu.Lock()
+	w.raw[cmd], w.perms[cmd] = raw, pm
+	w.mu.Unlock()
+	if raw {
+		w.srv.HandleRaw(cmd, w.h)
+	} else {
+		w.srv.Handle(cmd, w.h, pm...)
+	}
+}
+
+func (w *world) isRaw(cmd int) bool {
+	w.mu.Lock()
+	defer w.mu.Unlock()
+	return w.raw[cmd]
 }
 
 // setDefault installs the default policy on the server (between connections).
@@ -219,7 +248,7 @@ func (w *world) setDefault(p pol) {
 func (w *world) allowed(cmd int, viaHandshake bool, authed, encrypted bool, user string) bool {
 	w.mu.Lock()
 	defer w.mu.Unlock()
-	if cmd == cmdRaw1 || cmd == cmdRaw2 {
+	if w.raw[cmd] {
 		return !viaHandshake
 	}
 	p, ok := w.effective(cmd)
@@ -234,7 +263,7 @@ func (w *world) allowed(cmd int, viaHandshake bool, authed, encrypted bool, user
 	}
 	if w.authzOn {
 		okp := false
-		for _, pm := range perms[cmd] {
+		for _, pm := range w.perms[cmd] {
 			if w.authz[pm+"|"+user] {
 				okp = true
 			}
@@ -330,6 +359,22 @@ func runCase(cs Case) (string, stats) {
 			w.mu.Lock()
 			w.inherit[c] = op.On
 			w.mu.Unlock()
+			policyChanged = true
+		case "register":
+			// op.Cmd picks one of the six registered commands, op.On makes it raw, op.Perm is a bit set of levels
+			c := allCmds[op.Cmd%6]
+			var pm []string
+			for i, n := range permNames {
+				if op.Perm>>uint(i)&1 != 0 {
+					pm = append(pm, n)
+				}
+			}
+			if kept != nil {
+				_ = kept.cc.Close()
+				<-kept.done
+				kept = nil
+			}
+			w.register(c, op.On, pm)
 			policyChanged = true
 		case "defpolicy":
 			w.setDefault(pol{Auth: op.Auth % 4, Enc: op.Enc % 4, Integ: op.Integ})
@@ -508,7 +553,7 @@ func runCase(cs Case) (string, stats) {
 			_ = m.PutInt(kit.Bg, cmd)
 			_ = m.FinishMessage(kit.Bg)
 			replySeen, closed := readReply(c, cmd)
-			if v := judge(oi, op, nil, cmd, false, replySeen, closed, cmd == cmdRaw1 || cmd == cmdRaw2); v != "" {
+			if v := judge(oi, op, nil, cmd, false, replySeen, closed, w.isRaw(cmd)); v != "" {
 				return fail(oi, op, "bare command: %s", v)
 			}
 			_ = c.cc.Close()
@@ -568,10 +613,10 @@ func genCase(t *rapid.T) Case {
 	var c Case
 	n := rapid.IntRange(3, 10).Draw(t, "nops")
 	for i := 0; i < n; i++ {
-		k := rapid.SampledFrom([]string{"run", "run", "run", "follow", "follow", "resume", "resume", "raw", "policy", "policy", "authz", "authz", "authorizer", "restart", "sidonly", "inherit", "defpolicy"}).Draw(t, "op")
+		k := rapid.SampledFrom([]string{"run", "run", "run", "follow", "follow", "resume", "resume", "raw", "policy", "policy", "authz", "authz", "authorizer", "restart", "sidonly", "inherit", "defpolicy", "register"}).Draw(t, "op")
 		c.Ops = append(c.Ops, Op{K: k, Cmd: rapid.IntRange(0, 6).Draw(t, "cmd"), Kind: rapid.IntRange(0, 3).Draw(t, "kind"), Keep: rapid.Bool().Draw(t, "keep"),
 			Auth: rapid.IntRange(0, 3).Draw(t, "auth"), Enc: rapid.IntRange(0, 3).Draw(t, "enc"), Integ: rapid.IntRange(0, 4).Draw(t, "integ") == 0,
-			Perm: rapid.IntRange(0, 2).Draw(t, "perm"), User: rapid.IntRange(0, 2).Draw(t, "user"), On: rapid.Bool().Draw(t, "on"), Say: rapid.IntRange(0, 35).Draw(t, "say")})
+			Perm: rapid.IntRange(0, 7).Draw(t, "perm"), User: rapid.IntRange(0, 2).Draw(t, "user"), On: rapid.Bool().Draw(t, "on"), Say: rapid.IntRange(0, 35).Draw(t, "say")})
 	}
 	return c
 }
@@ -649,6 +694,27 @@ func TestC05Directed(t *testing.T) {
 		cases = append(cases, Case{Ops: []Op{{K: "run", Cmd: 4, Kind: kind}, {K: "run", Cmd: 6, Kind: kind}, {K: "raw", Cmd: 0}, {K: "raw", Cmd: 4}, {K: "raw", Cmd: 5}, {K: "raw", Cmd: 6},
 			{K: "run", Cmd: 0, Kind: kind, Keep: true}, {K: "follow", Cmd: 4}, {K: "run", Cmd: 0, Kind: kind, Keep: true}, {K: "follow", Cmd: 6}}})
 	}
+	// registration histories: the LAST Handle/HandleRaw call for a command decides its path, policy and levels
+	regs := []Op{{K: "register", On: true}, {K: "register", Perm: 0}, {K: "register", Perm: 1}, {K: "register", Perm: 2}, {K: "register", Perm: 5}}
+	for cmd := 0; cmd < 6; cmd++ {
+		var seqs [][]Op
+		for _, a := range regs {
+			a.Cmd = cmd
+			seqs = append(seqs, []Op{a})
+			for _, b := range regs {
+				b.Cmd = cmd
+				seqs = append(seqs, []Op{a, b})
+			}
+		}
+		for si, seq := range seqs {
+			kind := si % 3 // CLAIMTOBE, TOKEN, unauthenticated
+			ops := append([]Op{}, seq...)
+			ops = append(ops, Op{K: "raw", Cmd: cmd}, Op{K: "run", Cmd: cmd, Kind: kind, Keep: true}, Op{K: "follow", Cmd: (cmd + 1) % 6},
+				Op{K: "authorizer", On: true}, Op{K: "authz", Perm: 0, User: kind % 2, On: true},
+				Op{K: "run", Cmd: cmd, Kind: kind}, Op{K: "raw", Cmd: cmd}, Op{K: "run", Cmd: (cmd + 1) % 6, Kind: kind, Keep: true}, Op{K: "follow", Cmd: cmd})
+			cases = append(cases, Case{Ops: ops})
+		}
+	}
 	bad := 0
 	for i, c := range cases {
 		v, st := runCase(c)
@@ -664,7 +730,7 @@ func TestC05Directed(t *testing.T) {
 			bad++
 		}
 	}
-	ev.Exhaustive("directed: 4 client kinds x 4 first commands x 7 follow-on/resumed commands x 4 strong policies (keep-alive follow-on, resume with the other command, session-id-only requester); policy tightening; authorizer table changes; raw/authenticated path crossings")
+	ev.Exhaustive("directed: 4 client kinds x 4 first commands x 7 follow-on/resumed commands x 4 strong policies (keep-alive follow-on, resume with the other command, session-id-only requester); policy tightening; authorizer table changes; raw/authenticated path crossings; 6 commands x every 1- and 2-step registration history over {raw, authenticated with 0/1/2 levels} probed bare, by handshake and as a follow-on")
 }
 
 func TestC05Replay(t *testing.T) {
